@@ -11,6 +11,7 @@ import D42.Model.Eq
 import D42.Model.Rollout
 import D42.Model.Migrate
 import D42.Model.History
+import D42.Model.RegexMatch
 import D42.Gen.Migration
 
 open D42 D42.Sexp
@@ -153,6 +154,16 @@ def handle (e : Sexp) : Sexp :=
           .list [encNats "s" r.1, .list (.atom "reqs" :: r.2.2.map encReq), encNat r.2.1.length])
          (runGen (genSeq rs) ds)
      | _, _ => .atom "BADINPUT")
+  | .list [.atom "rxmatch", .list (.atom "re" :: rs), str, .list (.atom "digits" :: ds), .list (.atom "words" :: ws)] =>
+    -- `digits` / `words`: the non-ASCII characters of the string that CPython's `\\d` / `\\w` accept
+    (match rs.mapM decRe, decStr str, sxNats ds, sxNats ws with
+     | some rs, some str, some ds, some ws =>
+       let extB : ClsItem → Nat → Bool := fun it x => match it with
+         | .digit => ds.contains x
+         | .word => ws.contains x
+         | _ => false
+       .atom (if matchSeqB extB rs str then "1" else "0")
+     | _, _, _, _ => .atom "BADINPUT")
   | .list [.atom "subst", s, v, tab] =>
     (match decSchema s, decVal v, decRxTab tab with
      | some s, some v, some tab => encExcept encSchema (subst (mkEnv tab) s v)
